@@ -22,6 +22,7 @@ impl PagedWriter {
     /// representation invariant
     pub open spec fn wf(&self) -> bool {
         &&& self.dl() % 1024 == 0
+        &&& self.dl() <= 0x7fff_ffff_ffff_ffff
         &&& self.writer.pos % 1024 == 0
         &&& self.writer.pos <= self.dl()
         &&& self.offset < 1020
@@ -36,6 +37,7 @@ impl PagedWriter {
         if self.dl() / 1024 >= self.p() + (if self.offset > 0 { 1int } else { 0int }) { self.dl() / 1024 } else { self.p() + 1 }
     }
     /// abstract state: the logical byte stream written so far, page granular (zero filled)
+    #[verifier::opaque]
     pub open spec fn stream(&self) -> Seq<u8> {
         Seq::new((1020 * self.npages()) as nat, |i: int|
             if i / 1020 == self.p() { self.page_buffer@[i % 1020] } else { self.writer.data@[1024 * (i / 1020) + i % 1020] })
@@ -55,6 +57,8 @@ impl PagedWriter {
             Ok(w) => w.wf() && writer.data@.len() == 0 && w.writer.data@ == writer.data@ && w.stream() =~= Seq::<u8>::empty() && w.cursor() == 0
                 && w.writer.failed@ == writer.failed@,
             Err(_) => true },
+//@body_start
+        proof { reveal(PagedWriter::stream); reveal(phys); reveal(unphys); }
 //@endfn
 
 //@fn src/paged_writer.rs PagedWriter read_current_page serves=C11,C16 ret=r
@@ -111,7 +115,7 @@ impl PagedWriter {
 //@rw #\[cfg\(feature = "crc32c"\)\]\s*let crc = [^;]*; ==> <empty>
 //@rw crc\.to_be_bytes\(\) ==> shim_u32_to_be_bytes(crc)
 //@sig
-        requires old(self).wf(), old(self).dl() + 2048 < u64::MAX,
+        requires old(self).wf(),
         ensures match r {
             Ok(n) => final(self).wf() && final(self).no_new_fault(old(self))
                 // short write at the page boundary only
@@ -170,12 +174,14 @@ impl PagedWriter {
                          else if i < old(self).stream().len() { old(self).stream()[i] } else { 0u8 }) by { }
             }
         }
+//@body_start
+        proof { reveal(PagedWriter::stream); reveal(phys); reveal(unphys); }
 //@endfn
 
     /// std::io::Write::write_all (provided method of the trait), re-stated over the extracted `write` and
     /// verified against its contract: loops until the buffer is consumed, Ok(0) is an error
     fn write_all(&mut self, buf: &[u8]) -> (r: std::result::Result<(), IoError>)
-        requires old(self).wf(), old(self).dl() + 1024 * ((old(self).offset + buf@.len()) / 1020 + 3) < u64::MAX,
+        requires old(self).wf(),
         ensures match r {
             Ok(_) => final(self).wf() && final(self).no_new_fault(old(self)) && final(self).cursor() == old(self).cursor() + buf@.len()
                 && appended(*old(self), *final(self), buf@)
@@ -189,10 +195,11 @@ impl PagedWriter {
                          else if i < old(self).stream().len() { old(self).stream()[i] } else { 0u8 })),
             Err(_) => true },
     {
+        proof { reveal(PagedWriter::stream); reveal(phys); reveal(unphys); }
         let mut done: usize = 0;
         while done < buf.len()
             invariant
-                done <= buf@.len(), self.wf(), self.dl() + 1024 * ((self.offset + (buf@.len() - done)) / 1020 + 3) < u64::MAX,
+                done <= buf@.len(), self.wf(),
                 self.no_new_fault(old(self)),
                 self.dl() <= old(self).dl() + 1024 * ((old(self).offset + done) / 1020), self.dl() >= old(self).dl(),
                 self.offset == (old(self).offset + done) % 1020,
@@ -203,22 +210,24 @@ impl PagedWriter {
                          else if i < old(self).stream().len() { old(self).stream()[i] } else { 0u8 }),
             decreases buf@.len() - done
         {
+            proof { reveal(PagedWriter::stream); reveal(phys); reveal(unphys); }
             let n = self.write(vstd::slice::slice_subrange(buf, done, buf.len()))?;
             if n == 0 { return Err(IoError::new(ErrorKind::WriteZero, "")); }
             done = done + n;
         }
+        proof { reveal(app_seq); reveal(PagedWriter::stream); }
         Ok(())
     }
 
 //@fn src/paged_writer.rs PagedWriter physical_seek serves=C11,C16,C02,C06 ret=r
 //@sig
-        requires old(self).wf(), old(self).dl() + 4096 < u64::MAX,
+        requires old(self).wf(),
         ensures match r {
             // accepted iff inside the flushed file and not inside checksum bytes
             Ok(_) => final(self).wf() && final(self).no_new_fault(old(self)) && pos <= 1024 * old(self).npages() && pos % 1024 < 1020
                 && final(self).stream() =~= old(self).stream()
                 && final(self).dl() <= old(self).dl() + 1024 && final(self).dl() >= old(self).dl()
-                && final(self).cursor() == 1020 * (pos as int / 1024) + pos as int % 1024,
+                && final(self).cursor() == unphys(pos as int),
             Err(e) => final(self).writer.failed@ || pos > 1024 * old(self).npages() || pos % 1024 >= 1020 },
 //@call flush 0 after
         let ghost fl = *self;
@@ -230,11 +239,13 @@ impl PagedWriter {
                 if i / 1020 == self.p() { assert(self.page_buffer@[i % 1020] == d[1024 * (i / 1020) + i % 1020]); }
             }
         }
+//@body_start
+        proof { reveal(PagedWriter::stream); reveal(phys); reveal(unphys); }
 //@endfn
 
 //@fn src/paged_writer.rs PagedWriter physical_size serves=C11,C16,C02 ret=r
 //@sig
-        requires old(self).wf(), old(self).dl() + 4096 < u64::MAX,
+        requires old(self).wf(),
         ensures match r {
             Ok(sz) => final(self).wf() && final(self).no_new_fault(old(self)) && final(self).stream() =~= old(self).stream() && final(self).cursor() == old(self).cursor()
                 // size of the flushed file: whole pages, 1024 per 1020 payload bytes
@@ -242,22 +253,27 @@ impl PagedWriter {
                 && final(self).dl() <= old(self).dl() + 1024 && final(self).dl() >= old(self).dl()
                 && (forall|i: int| 0 <= i < 1020 * old(self).npages() ==> final(self).writer.data@[phys(i)] == #[trigger] old(self).stream()[i]),
             Err(_) => final(self).writer.failed@ },
+//@body_start
+        proof { reveal(PagedWriter::stream); reveal(phys); reveal(unphys); }
 //@endfn
 
 //@fn src/paged_writer.rs PagedWriter physical_position serves=C11,C16,C02,C06,C01 ret=r
 //@sig
-        requires old(self).wf(), old(self).dl() + 2048 < u64::MAX,
+        requires old(self).wf(),
         ensures match r {
             // reported physical position = phys(logical cursor): never inside checksum bytes
             Ok(p) => final(self).wf() && final(self).no_new_fault(old(self)) && final(self).stream() == old(self).stream() && final(self).cursor() == old(self).cursor()
                     && p == phys(old(self).cursor()) && p % 1024 < 1020 && final(self).dl() == old(self).dl(),
             Err(_) => final(self).writer.failed@ },
+//@body_start
+        proof { reveal(PagedWriter::stream); reveal(phys); reveal(unphys); }
 //@endfn
 
 //@fn src/paged_writer.rs PagedWriter align serves=C11,C16,C02 ret=r
 //@rw &zeros\[mod_offset\.\.\] ==> vstd::slice::slice_subrange(&zeros, mod_offset, 4)
 //@tail
         proof {
+            reveal(app_seq); reveal(PagedWriter::stream);
             if mod_offset != 0 {
                 assert(zeros@.subrange(mod_offset as int, 4) =~= Seq::new((4 - mod_offset) as nat, |i: int| 0u8));
             } else {
@@ -266,7 +282,7 @@ impl PagedWriter {
             }
         }
 //@sig
-        requires old(self).wf(), old(self).dl() + 4096 < u64::MAX,
+        requires old(self).wf(),
         ensures match r {
             Ok(_) => final(self).wf() && final(self).no_new_fault(old(self)) && final(self).cursor() % 4 == 0 && final(self).cursor() - old(self).cursor() < 4
                 && final(self).cursor() >= old(self).cursor()
@@ -314,12 +330,14 @@ impl PagedWriter {
                     if i / 1020 == p { } else { assert(d1[1024 * (i / 1020) + i % 1020] == d0[1024 * (i / 1020) + i % 1020]); }
                 }
             }
+//@body_start
+        proof { reveal(PagedWriter::stream); reveal(phys); reveal(unphys); }
 //@endfn
 
     // canary (vacuity guard): false postcondition on the real physical_position must fail
 //@fn src/paged_writer.rs PagedWriter physical_position rename=physical_position__canary canary ret=r
 //@sig
-        requires old(self).wf(), old(self).dl() + 2048 < u64::MAX,
+        requires old(self).wf(),
         ensures match r { Ok(p) => p == phys(old(self).cursor()) + 4, Err(_) => true },
 //@endfn
 }
@@ -330,11 +348,13 @@ proof fn theorem_flush_payload_is_stream(w: PagedWriter, d: Seq<u8>, s: Seq<u8>)
         forall|i: int| 0 <= i < 1020 * w.npages() ==> d[phys(i)] == #[trigger] s[i],
     ensures logical(d) =~= s
 {
+    reveal(PagedWriter::stream); reveal(phys);
     assert(d.len() / 1024 == w.npages());
 }
 
 // ---- append / patch algebra over the logical stream view (used by the layers above) -----------
 /// (ns, nc) is (os, oc) with `bytes` written at oc (overwriting or extending; new pages zero filled), cursor advanced
+#[verifier::opaque]
 pub open spec fn app_seq(os: Seq<u8>, oc: int, ns: Seq<u8>, nc: int, bytes: Seq<u8>) -> bool {
     &&& nc == oc + bytes.len()
     &&& ns.len() >= os.len()
@@ -343,12 +363,21 @@ pub open spec fn app_seq(os: Seq<u8>, oc: int, ns: Seq<u8>, nc: int, bytes: Seq<
             (if oc <= i < oc + bytes.len() { bytes[i - oc] } else if i < os.len() { os[i] } else { 0u8 })
 }
 pub open spec fn appended(o: PagedWriter, n: PagedWriter, bytes: Seq<u8>) -> bool {
-    app_seq(o.stream(), o.cursor(), n.stream(), n.cursor(), bytes)
+    // the cursor equation is visible to callers; the per-byte content relation is opaque and only handled by the lemmas below
+    n.cursor() == o.cursor() + bytes.len() && app_seq(o.stream(), o.cursor(), n.stream(), n.cursor(), bytes)
 }
+/// what `appended` means byte by byte (for callers that need to look inside)
+pub proof fn lemma_appended_content(o: PagedWriter, n: PagedWriter, bytes: Seq<u8>)
+    requires appended(o, n, bytes)
+    ensures n.stream().len() >= o.stream().len(), n.cursor() <= n.stream().len(),
+        forall|i: int| 0 <= i < n.stream().len() ==> #[trigger] n.stream()[i] ==
+            (if o.cursor() <= i < o.cursor() + bytes.len() { bytes[i - o.cursor()] } else if i < o.stream().len() { o.stream()[i] } else { 0u8 })
+{ reveal(app_seq); }
 pub proof fn lemma_app_seq_trans(s1: Seq<u8>, c1: int, s2: Seq<u8>, c2: int, s3: Seq<u8>, c3: int, x: Seq<u8>, y: Seq<u8>)
     requires app_seq(s1, c1, s2, c2, x), app_seq(s2, c2, s3, c3, y), c1 >= 0
     ensures app_seq(s1, c1, s3, c3, x + y)
 {
+    reveal(app_seq);
     let xy = x + y;
     assert forall|i: int| 0 <= i < s3.len() implies #[trigger] s3[i] ==
             (if c1 <= i < c1 + xy.len() { xy[i - c1] } else if i < s1.len() { s1[i] } else { 0u8 }) by {
@@ -369,14 +398,15 @@ pub proof fn lemma_appended_trans(a: PagedWriter, b: PagedWriter, c: PagedWriter
 pub proof fn lemma_appended_refl(a: PagedWriter)
     requires a.wf()
     ensures appended(a, a, Seq::<u8>::empty())
-{}
+{ reveal(app_seq); reveal(PagedWriter::stream); }
 /// same stream content, cursor moved (physical_seek)
-pub open spec fn moved(o: PagedWriter, n: PagedWriter, c: int) -> bool { n.stream() =~= o.stream() && n.cursor() == c }
+pub open spec fn moved(o: PagedWriter, n: PagedWriter, c: int) -> bool { n.stream() == o.stream() && n.cursor() == c }
 /// overwrite of an already written prefix: x ++ y was written at c0; go back to c0, write x2 (|x2| == |x|), return to the end
 pub proof fn lemma_patch_seq(s0: Seq<u8>, c0: int, s3: Seq<u8>, s5: Seq<u8>, x: Seq<u8>, y: Seq<u8>, x2: Seq<u8>)
     requires app_seq(s0, c0, s3, c0 + x.len() + y.len(), x + y), app_seq(s3, c0, s5, c0 + x2.len(), x2), x2.len() == x.len(), c0 >= 0
     ensures app_seq(s0, c0, s5, c0 + x.len() + y.len(), x2 + y)
 {
+    reveal(app_seq);
     let xy = x + y; let x2y = x2 + y;
     assert forall|i: int| 0 <= i < s5.len() implies #[trigger] s5[i] ==
             (if c0 <= i < c0 + x2y.len() { x2y[i - c0] } else if i < s0.len() { s0[i] } else { 0u8 }) by {
@@ -398,8 +428,9 @@ pub proof fn lemma_patch_prefix(a: PagedWriter, s3: PagedWriter, s4: PagedWriter
 /// physical <-> logical translation used by seeks to reported positions
 pub proof fn lemma_phys_roundtrip(c: int)
     requires c >= 0
-    ensures phys(c) % 1024 < 1020, 1020 * (phys(c) / 1024) + phys(c) % 1024 == c, phys(c) >= 0
+    ensures phys(c) % 1024 < 1020, unphys(phys(c)) == c, phys(c) >= 0
 {
+    reveal(phys); reveal(unphys);
     let q = c / 1020; let r = c % 1020;
     vstd::arithmetic::div_mod::lemma_fundamental_div_mod(c, 1020);
     vstd::arithmetic::div_mod::lemma_fundamental_div_mod_converse(q * 1024 + r, 1024, q, r);
